@@ -498,3 +498,45 @@ Proof.
   rewrite Nnat.Nat2N.id.
   rewrite <- (app_nil_r (concat _)). rewrite read_tcards_export by exact Hwf. reflexivity.
 Qed.
+
+(* ---- TMCG_StackSecret<TMCG_CardSecret> ---------------------------------------------------------- *)
+Lemma export_tsecret_nohat c : Forall (fun x => x <> hat) (export_tsecret c).
+Proof.
+  unfold export_tsecret.
+  repeat (apply Forall_app; split); try (repeat constructor; discriminate);
+    try (apply plain_not_hat, encode_dec_plain); apply write_fields_nohat.
+Qed.
+
+Lemma read_tpairs_export size ss rest :
+  Forall (fun p => fst p < size /\ wf_tsecret (snd p)) ss -> size <= ulong_max ->
+  read_tpairs size (length ss)
+    (concat (map (fun p => encode_dec (fst p) ++ hat :: export_tsecret (snd p) ++ [hat]) ss) ++ rest)
+  = Some (ss, rest).
+Proof.
+  intros H Hs. induction H as [|[i r] ss [Hi Hwf] _ IH]; [reflexivity|].
+  cbn [length read_tpairs map concat fst snd] in *. unfold field. rewrite <- ?app_assoc. cbn [app].
+  rewrite split_at_app by (apply plain_not_hat, encode_dec_plain).
+  rewrite strtoul_encode_dec by lia.
+  destruct (N.ltb_spec i size); [|lia].
+  rewrite <- ?app_assoc. cbn [app].
+  rewrite split_at_app by apply export_tsecret_nohat.
+  rewrite (tsecret_roundtrip r Hwf), IH. reflexivity.
+Qed.
+
+Definition wf_tstacksecret (ss : list (N * tsec)) : Prop :=
+  (1 <= length ss <= Z.to_nat TMCG_MAX_CARDS)%nat /\
+  Forall (fun p => fst p < N.of_nat (length ss) /\ wf_tsecret (snd p)) ss /\
+  perm_check ss (N.of_nat (length ss)) = true.
+
+Theorem tstacksecret_roundtrip ss : wf_tstacksecret ss ->
+  import_tstacksecret [] (export_tstacksecret ss) = Some ss.
+Proof.
+  intros (Hn & Hidx & Hperm). unfold import_tstacksecret, export_tstacksecret.
+  cbn [app]. rewrite cm_magic by apply magic_nohat_sts.
+  rewrite <- ?app_assoc. cbn [app].
+  assert (TMCG_MAX_CARDS < 100000)%Z by reflexivity.
+  rewrite import_size_encode by lia.
+  rewrite Nnat.Nat2N.id.
+  rewrite <- (app_nil_r (concat _)). rewrite read_tpairs_export; [|assumption|unfold ulong_max; lia].
+  cbn [app]. now rewrite Hperm.
+Qed.
